@@ -2,6 +2,7 @@ import Kaira.Proto
 import Kaira.Codes
 import Kaira.Decoders
 import Kaira.BM
+import Kaira.Reed
 namespace Kaira.Verbs
 open Kaira Kaira.Proto Kaira.Codes Kaira.Decoders
 
@@ -72,6 +73,25 @@ def cfec (cs : CodeTable) (toks : List String) : Option String :=
     match blockwise c.n c.r (syndrome c.HT) bits with
     | some s => some (if s.any id then "1" else "0")
     | none => some "reject"
+  | _ => none
+
+abbrev ReedTable := List (String × List (List Nat))
+
+/-- `defreed name g,g,..;g,g/…`: check groups (position masks) of every generator row, rows separated by `/` -/
+def defReed (toks : List String) : Option (String × List (List Nat)) :=
+  match toks with
+  | ["defreed", name, parts] => do
+    let rows ← (parts.splitOn "/").mapM natList?
+    some (name, rows)
+  | _ => none
+
+/-- `reed name bits`: ReedMullerDecoder.forward (hard input), blockwise -/
+def creed (cs : CodeTable) (rs : ReedTable) (toks : List String) : Option String :=
+  match toks with
+  | ["reed", c, bits] => do
+    let parts ← (rs.find? (·.1 = c)).map (·.2)
+    let c ← findCode cs c; let bits ← bits? bits
+    some (out (blockwise c.n c.k (Kaira.Reed.reedDecode c.n c.G parts) bits))
   | _ => none
 
 end Kaira.Verbs
